@@ -265,7 +265,21 @@ pub fn word_wf(w: &WordS) -> Option<&'static str> {
     None
 }
 
+/// rules that add and remove place sub-nodes (the bit-level bookkeeping of `Place`): node removal, node assimilation, node-carrying diacritic features
+fn node_rule(g: &mut Gen) -> String {
+    let el = ["C", "V", "[]", "[+round]", "[+labiodental]", "[+rtr]", "G", "N", "[+dist]"][g.rng.below(9)];
+    let nd = ["lab", "cor", "dor", "phr", "place"][g.rng.below(5)];
+    match g.rng.below(6) {
+        0 | 1 => format!("{el} > [-{nd}]"),
+        2 => format!("{el} > [α{nd}] / _ []:[α{nd}]"),
+        3 => format!("{el} > [αplace] / _ C:[αplace]"),
+        4 => format!("{el} > [+{nd}]"),
+        _ => format!("{el} > [-{nd}, +{}]", ["round", "ant", "high", "atr", "back", "labiodental"][g.rng.below(6)]),
+    }
+}
+
 fn structural_rule(g: &mut Gen) -> String {
+    if g.rng.chance(1, 5) { return node_rule(g) }
     match g.rng.below(16) {
         0 => "$ > *".into(), 1 => format!("$ > * / {} _", g.seg()), 2 => format!("* > $ / {} _ {}", g.pick_cv(), g.pick_cv()),
         3 => format!("{} > *", g.pick_cv()), 4 => format!("{} > * / _ #", g.pick_cv()), 5 => "% > * / _ #".into(),
